@@ -483,4 +483,6 @@ def run(ck, tier):
     _imp3(ck, 'C01', 'R20', ('R4',), 'the response does not match the request it answers (wrong function code), or cannot be built at all', detail_prefixes=('illegal-function-code-source',))
     ck.rule('R19', 'the RTU frame length oracle sizes every request correctly up to the 256-byte ADU limit (shared with C03 R3)')
     _imp3(ck, 'C03', 'R19', ('R3',), 'a maximum-size request is never answered', detail_prefixes=('rtuFrameSize-shape', 'size-from-buffered-length', 'custom-size-override', 'fifo-size', 'mei-size-shape', 'base-size-shape'))
+    from .. import options as _opt
+    ck.guard(_opt.rule_options_read_at_construction, ck, cx, 'R21', ('pymodbus.server.sync', 'pymodbus.server.async_io', 'pymodbus.server.asynchronous'), ('IgnoreMissingSlaves', 'broadcast_enable'), 'requests for absent units / broadcasts are answered or dropped against the configured policy')
     return cx.idx
